@@ -10,7 +10,15 @@ the identity (times within one frame) and that batching does not change the erro
 exported case drives the real entry points IN-PROCESS (python functions with argument lists) on a
 temporary directory: with --num-workers 0, and with vf/doubles/fakepool.py replaying behaviours of
 WorkerPool.tla (all behaviours, up to what an in-process fake can distinguish, on the larger
-corpora); thorough tier: real spawn pools as well."""
+corpora); thorough tier: real spawn pools as well.
+
+Family "subrun": subset-torch-spect-data-dir run two or three times into the SAME destination while a source
+directory is re-generated (in place / removed and re-written) or another source with the same utterance ids is
+subset.  Commands.tla keeps the destination as state (entries: copy / symlink / hard link over a small inode
+model), lets every run handle its utterances in any order and checks that after every run that is not refused
+the requested files read as the source does now and nothing unrequested is there; os.link / os.symlink refusing
+an existing name is the explicit outcome "raises".  The exported histories are replayed run by run; a writer
+that leaves existing files alone (SubRunFault) must be rejected by TLC."""
 import contextlib
 import io
 import json
@@ -27,10 +35,11 @@ from . import _tr
 
 PROP = "C17"
 CM_MOD = os.path.join(SPECS, "CommandsMC.tla")
-FAMS = ["ali", "trn", "ctm", "tg", "er", "sub", "mom", "momr"]
+FAMS = ["ali", "trn", "ctm", "tg", "er", "sub", "subrun", "mom", "momr"]
 if os.environ.get("VF_C17_FAMS"):  # debugging aid only: restrict the run to some families
     FAMS = [f for f in FAMS if f in os.environ["VF_C17_FAMS"].split(",")]
-POOL_FAMS = {"ali", "trn", "ctm", "tg", "sub", "mom", "momr"}
+POOL_FAMS = {"ali", "trn", "ctm", "tg", "sub", "subrun", "mom", "momr"}
+NO_INTERLEAVE = {"subrun"}  # (its per-item work is that of "sub")
 IDS = {0: 11, 1: 4, 2: 7, 3: 23}  # abstract token -> integer id (0 = the unknown symbol)
 UNK = "<unk>"
 TG_SUFFIXES = [".TextGrid", ".tg"]
@@ -48,6 +57,10 @@ def _cl():
 
 class CommandFailed(Exception):
     pass
+
+
+class CommandRaised(Exception):
+    """the command raised an exception the caller declared as a modelled outcome"""
 
 
 class Env:
@@ -91,9 +104,10 @@ class Env:
         sig.update({k: v for k, v in extra.items() if k in ("cls",)})
         self.ctx.violation(sig, detail, self.case(site=site))
 
-    def run(self, site, fn, args, uses_pool=True):
+    def run(self, site, fn, args, uses_pool=True, allow=()):
         """call a console entry point in-process.  Returns (stdout, stderr).  Raises CommandFailed
-        after reporting when the command raises / exits non-zero."""
+        after reporting when the command raises / exits non-zero; an exception of a class in `allow` is an
+        outcome the specification models: CommandRaised, nothing reported."""
         args = [str(a) for a in args]
         out, err = io.StringIO(), io.StringIO()
         plan = None
@@ -114,6 +128,8 @@ class Env:
         except fakepool.FakePoolError as ex:
             raise MachineryError("FakePool: %s" % ex)
         except Exception as ex:
+            if allow and isinstance(ex, tuple(allow)):
+                raise CommandRaised(type(ex).__name__)
             cls = type(ex).__name__
             if isinstance(ex, ZeroDivisionError):
                 cls = "ZeroDivisionError"
@@ -629,6 +645,121 @@ def fam_sub(env):
 
 
 # =============================================================================================
+# subsets, run repeatedly into the same destination
+def _subrun_tensor(sub, j, T, s, v):
+    import torch
+
+    tag = j + 10 * s + 100 * v  # utterance, source directory, version of its contents
+    if sub == "feat":
+        return torch.arange(T * 2, dtype=torch.float).reshape(T, 2) + tag
+    if sub == "ali":
+        return torch.full((T,), tag)
+    return torch.tensor([[tag, 0, T]])
+
+
+def _subrun_generate(env, made, s, v, how):
+    """(re-)generate source directory s with contents of version v: "new" directory, "inplace" (the files are
+    overwritten: same inode) or "replace" (removed and written anew)"""
+    rec = env.rec
+    src = env.p("src%d" % s)
+    for sub in ("feat", "ali", "ref"):
+        if not any(h[sub] for h in rec["has"]):
+            continue
+        os.makedirs(os.path.join(src, sub), exist_ok=True)
+        for j, (nm, T, h) in enumerate(zip(env.names, rec["data"], rec["has"])):
+            if not h[sub]:
+                continue
+            path = os.path.join(src, sub, nm)
+            if how == "replace":
+                os.remove(path)
+            t = _subrun_tensor(sub, j, T, s, v)
+            _save(path, t)
+            made[(s, v, sub, nm)] = t
+    if how == "new":
+        for dn in env.distractors:
+            _save(os.path.join(src, "feat", dn), _subrun_tensor("feat", 7, 1, s, v))
+    return src
+
+
+def _subrun_read_dest(env, made):
+    """dest as a map "sub/name" -> (source, version) of the contents it reads as (None: unknown contents)"""
+    import torch
+
+    out = {}
+    for sub in ("feat", "ali", "ref"):
+        d = os.path.join(env.p("dest"), sub)
+        if not os.path.isdir(d):
+            continue
+        for f in sorted(os.listdir(d)):
+            t = torch.load(os.path.join(d, f))
+            hit = [(s, v) for (s, v, sb, nm), m in made.items() if sb == sub and nm == f and m.shape == t.shape and torch.equal(m, t)]
+            out[sub + "/" + f] = list(hit[0]) if hit else None
+    return out
+
+
+def fam_subrun(env):
+    cl, rec = _cl(), env.rec
+    site = "subset-torch-spect-data-dir"
+    made = {}
+    srcs = {1: _subrun_generate(env, made, 1, 1, "new"), 2: _subrun_generate(env, made, 2, 2, "new")}  # (Dst0 of the spec)
+    style = {"copy": ["--copy"], "symlink": ["--symlink"], "link": []}[rec["style"]]
+    key = lambda k: k[0] + "/" + J(k[1])
+    obs = []
+    for r_no, run in enumerate(rec["runs"], 1):
+        s, v = run["cur"]
+        if run["regen"] != "none":
+            _subrun_generate(env, made, s, v, run["regen"])
+        crit = run["crit"]
+        cargs = ["--" + crit["kind"], RATIO[(crit["num"], crit["den"])] if crit["kind"].endswith("-ratio") else crit["num"]]
+        what = "run %d of %d (%s, source %d%s, %s %s)" % (
+            r_no, len(rec["runs"]), rec["style"], s, "" if run["regen"] == "none" else " re-generated " + run["regen"],
+            crit["kind"], crit["num"])
+        try:
+            env.run(site, cl.subset_torch_spect_data_dir,
+                    [srcs[s], env.p("dest")] + style + env.naming_args() + env.worker_args() + cargs,
+                    allow=(FileExistsError,))
+            outcome = "ok"
+        except CommandRaised:
+            outcome = "raises"
+        except CommandFailed:
+            return obs
+        if outcome == "raises":
+            obs.append(["raises"])
+            if run["outcome"] != "raises":
+                env.violation(site, "exception", "%s raised FileExistsError although no requested file was in the destination"
+                              % what, cls="FileExistsError")
+            return obs  # (a refused run ends the history, in the specification as well)
+        got = _subrun_read_dest(env, made)
+        obs.append(["ok", got])
+        chosen = sorted(key(k) for k in run["chosen"])
+        requested = set(key(k) for k in run["requested"])
+        missing = [k for k in chosen if k not in got]
+        extra = sorted(set(got) - requested)
+        if missing:
+            env.violation(site, "files_missing", "%s: requested files %r are not in the destination (%r)" % (what, missing, sorted(got)),
+                          cls="after_rerun")
+            return obs
+        if extra:
+            env.violation(site, "files_extra", "%s: the destination holds %r which no run requested" % (what, extra), cls="after_rerun")
+            return obs
+        stale = [(k, got[k]) for k in chosen if got[k] != [s, v]]
+        if stale:
+            known = all(x[1] is not None for x in stale)
+            env.violation(site, "stale_after_rerun" if known else "value",
+                          "%s: requested files differ from the source files of this run: %s (the source holds [directory, "
+                          "version] = %r)" % (what, ", ".join("%s reads as %r" % x for x in stale), [s, v]),
+                          cls="kept_existing_file" if known else "other")
+            return obs
+        if run["outcome"] == "raises":  # a link style that replaces instead of refusing: the clause holds, fine
+            env.ctx.count("informational_subrun_no_refusal_files_identical")
+            return obs
+        want = {key(k): val for k, val in run["dest"]}
+        if got != want:
+            env.ctx.count("informational_subrun_unrequested_files_read_differently")
+    return obs
+
+
+# =============================================================================================
 # length moments
 def fam_mom(env):
     import torch
@@ -684,12 +815,17 @@ def fam_mom(env):
     return dict(out=text)
 
 
-HANDLERS = dict(ali=fam_ali, trn=fam_trn, ctm=fam_ctm, tg=fam_tg, er=fam_er, sub=fam_sub, mom=fam_mom, momr=fam_mom)
+HANDLERS = dict(ali=fam_ali, trn=fam_trn, ctm=fam_ctm, tg=fam_tg, er=fam_er, sub=fam_sub, subrun=fam_subrun, mom=fam_mom,
+                momr=fam_mom)
 
 
 def n_items(rec):
     if rec["fam"] == "sub":
         return len(rec["chosen"])
+    if rec["fam"] == "subrun":  # under a pool only the histories in which no run is refused
+        if any(r["outcome"] != "ok" for r in rec["runs"]):
+            return 0
+        return max(len({J(k[1]) for k in r["chosen"]}) for r in rec["runs"])
     return len(rec["data"])
 
 
@@ -734,7 +870,7 @@ def interleavings(ctx, recs, schedules, maxn):
     ctx.add_tlc("WorkerPoolFs/private scratch files", res)
     programs, meta = [], {}
     for fam in FAMS:
-        if fam not in POOL_FAMS:
+        if fam not in POOL_FAMS or fam in NO_INTERLEAVE:
             continue
         chosen = [(idx, rec) for idx, rec in enumerate(recs[fam]) if rec is not None and 2 <= n_items(rec) <= maxn and len(rec["data"]) <= maxn
                   and not (fam == "sub" and rec["crit"]["kind"].startswith(("shortest", "longest")))]
@@ -817,6 +953,17 @@ def commands_jobs(ctx):
         with open(p, "w") as f:
             f.write(txt.replace("Fams <- AllFams", 'Fams = {"%s"}' % fam))
         jobs.append(("Commands/" + fam, CM_MOD, p, dict(workers=2, timeout=2400)))
+    if "subrun" in FAMS:
+        # non-vacuity of the repeated-run invariants: a writer that leaves an existing destination file alone
+        # (SubRunFault) must be rejected by SubRunIdentical (always on the quick universe: a counterexample is enough)
+        with open(os.path.join(SPECS, "Commands_quick.cfg")) as f:
+            qtxt = f.read()
+        if "SubRunFault = FALSE" not in qtxt:
+            raise MachineryError("unexpected cfg layout in Commands_quick.cfg")
+        p = os.path.join(ctx.subdir("cfg"), "subrun_fault_Commands_quick.cfg")
+        with open(p, "w") as f:
+            f.write(qtxt.replace("Fams <- AllFams", 'Fams = {"subrun"}').replace("SubRunFault = FALSE", "SubRunFault = TRUE"))
+        jobs.append(("CommandsFault/subrun", CM_MOD, p, dict(workers=2, timeout=600, coverage=False)))
     return jobs
 
 
@@ -828,7 +975,8 @@ def run(ctx):
                 "prefix and suffix x the commands' option universes, with files in the input directories that must "
                 "not be selected) drives the real console entry points in-process: serially, under a FakePool "
                 "behaviour of WorkerPool.tla chosen round-robin, and -- on the larger corpora -- under every "
-                "behaviour an in-process pool can distinguish.  Non-trivial: >= 2 utterances, a non-default prefix "
+                "behaviour an in-process pool can distinguish; histories of 2-3 subset runs into one destination with "
+                "the source data changing in between are replayed run by run.  Non-trivial: >= 2 utterances, a non-default prefix "
                 "or suffix, or a non-default option (alternates, unk, maps, replace/ignore, unequal costs, "
                 "exclusions, a criterion selecting a proper non-empty subset)")
     ctx.assumptions += [
@@ -838,6 +986,10 @@ def run(ctx):
         "error rates: per-utterance figures and totals with a zero denominator are not defined and not run; for "
         "unequal costs any edit count of a minimum-cost alignment is accepted (C02)",
         "TextGrid round trips use tiers that are all intervals of positive length or all points, precision >= 3",
+        "repeated subset runs: a run refused with FileExistsError (link styles, file already in the destination) is a "
+        "modelled outcome and ends the history; a link style that replaced the file instead would be accepted if the "
+        "requested files are identical to the source; files of earlier runs that the last run did not request are "
+        "compared informationally",
         "subset: --only, --rand-* are not modelled; length criteria are run with extra workers only for a few cases with tied lengths (6 quick / 60 thorough)",
         "commands that read through a DataLoader (token dir -> trn / ctm) get real worker processes only in the "
         "thorough tier; the error-rate command has no worker option",
@@ -848,12 +1000,29 @@ def run(ctx):
     res = _tr._run_parallel(commands_jobs(ctx) + _tr.pool_jobs(ctx, with_design=not ctx.quick))
     recs = {}
     for name, r in sorted(res.items()):
+        if name == "CommandsFault/subrun":
+            if r.ok or "Invariant SubRunIdentical is violated" not in (r.error or ""):
+                raise MachineryError("%s: a writer that keeps existing destination files was not rejected by "
+                                     "SubRunIdentical (%s)" % (name, r.error))
+            ctx.add_tlc(name + " (expected violation of SubRunIdentical)", r, count_states=False)
+            continue
         tlc.require_ok(r, name)
         ctx.add_tlc(name, r)
         if name.startswith("Commands/"):
             fam = name.split("/")[1]
-            tlc.require_covered(r, ["Init"] + (["Take", "Finish", "Deliver"] if fam in POOL_FAMS else []), name)
+            tlc.require_covered(r, ["Init"] + (["BeginRun", "DoItem", "EndRun"] if fam == "subrun" else
+                                               ["Take", "Finish", "Deliver"] if fam in POOL_FAMS else []), name)
             recs[fam] = sorted(r.records, key=repr)
+            if fam == "subrun":
+                # a history ending in a refused run is exported once per order in which the utterances before the
+                # refusal were handled (the logs are equal: SubRunLogFree)
+                uniq = {}
+                for x in recs[fam]:
+                    uniq.setdefault(repr(x), x)
+                recs[fam] = [uniq[k] for k in sorted(uniq)]
+                if not any(x["runs"][-1]["outcome"] == "raises" for x in recs[fam]) or \
+                        not any(all(y["outcome"] == "ok" for y in x["runs"]) and x["style"] != "copy" for x in recs[fam]):
+                    raise MachineryError("the subrun universe lacks refused runs / link-style histories without a refusal")
             if not recs[fam]:
                 raise MachineryError("no cases exported for " + name)
         else:
